@@ -50,6 +50,17 @@ C05_TARGETS = [
     'lemma:arith_ok_shape', 'lemma:app_shapes', 'lemma:nargs_nonneg',
 ]
 
+C18_RULES = ['not_not', 'implies', 'implies_pos', 'implies_neg1', 'implies_neg2', 'false',
+             'equiv_pos1', 'equiv_pos2', 'equiv_neg1', 'equiv_neg2', 'ite_pos1', 'ite_pos2', 'ite_neg1', 'ite_neg2',
+             'xor_pos1', 'xor_pos2', 'xor_neg1', 'xor_neg2', 'not_implies1', 'not_implies2', 'not_equiv1',
+             'not_equiv2', 'equiv1', 'equiv2', 'ite1', 'ite2', 'not_ite1', 'not_ite2',
+             'and', 'or', 'or_neg', 'not_or']
+C18_HELPERS = ['kernel.term.Or', 'kernel.term.And', 'kernel.term.Term.strip_disj', 'kernel.term.Term.strip_conj',
+               'smt.veriT.verit_macro.strip_disj_n']
+C18_LEMMAS = ['lemma:pv_disj_of', 'lemma:pv_conj_of', 'lemma:slice_tail', 'lemma:pv_sdl', 'lemma:pv_scl',
+              'lemma:pv_anyl_at', 'lemma:pv_anyl_any', 'lemma:pv_alll_all', 'lemma:pv_sd0', 'lemma:pv_sc0',
+              'lemma:pv_anyl0', 'lemma:pv_anyl_cons', 'lemma:pv_any_at', 'lemma:pv_all_at', 'lemma:sem_equiv_pos2']
+
 PLANS = {
     'C01': dict(
         specs=KERNEL_SPECS, contracts=KERNEL_CONTRACTS, targets=C01_TARGETS, level='proof',
@@ -187,22 +198,41 @@ PLANS = {
         trusted_base=['own generators'],
     ),
     'C18': dict(
-        models=[], specs=['spec.veritspec'], contracts=['contracts.verit'],
-        targets=['smt.veriT.verit_macro.try_resolve'], bounded=['bounded.c18_verit.run'], level='exploration',
+        models=[], specs=['spec.terms', 'spec.types', 'spec.veritspec'],
+        contracts=['contracts.kernel_term', 'contracts.kernel_type', 'contracts.verit'],
+        targets=['smt.veriT.verit_macro.try_resolve'] + C18_LEMMAS + C18_HELPERS +
+                ['smt.veriT.verit_macro.macro__verit_%s.eval' % r for r in C18_RULES],
+        # not_and needs ~75 s for one invariant obligation: thorough tier only (budget 120 s per obligation)
+        thorough_targets=['smt.veriT.verit_macro.macro__verit_not_and.eval'],
+        bounded=['bounded.c18_verit.run', 'bounded.c18_contracts.run'], level='proof', timeout_ms=60000,
         native_per_fn={'quick': 0, 'thorough': 0},
         rule='see coverage.bounded[0].rule',
-        assumptions=[
-            "deductive leaf: try_resolve (the pivot search of th_resolution) is proved to return positions of "
-            "complementary literals with the right side tag, and None only when no complementary pair exists (all "
-            "clause lengths, loop invariants over index-based specs); everything else is a bounded stand-in: "
-            "~85 rule evaluations, each an ad-hoc syntactic test; 'semantic consequence' is "
-            "decided by z3 on an own encoding (propositional structure, equality, uninterpreted functions, linear "
-            "integer / real arithmetic), 3 s per query, 'unknown' is never a violation",
-            "rules with special argument formats are covered only where a dedicated generator exists (th_resolution, "
-            "la_generic, equality chains); refl, let, bind, sko_ex, sko_forall, onepoint, forall_inst, subproof and the "
-            "quantifier rules (qnt_*) are NOT exercised",
+        assumptions=COMMON_ASSUMPTIONS + [
+            ("deductive part: the evaluation (`eval`) of %d veriT rules is proved sound for ALL argument lists and " % len(C18_RULES)) +
+            "premises: whenever it returns, the returned clause is true under every valuation of its atoms in which "
+            "the premise is true (spec/veritspec.py `pv`: conj, disj, implies, neg, xor, Boolean equality, Boolean "
+            "conditional, true, false; every other term is an atom, a reflexive equation is true), and its "
+            "hypotheses are those of the premise (none for tautology rules). Rules: " + ', '.join(C18_RULES) +
+            ". Under contract as well: kernel.term.Or / And (= right-nested disjunction / conjunction of the "
+            "arguments, any number), Term.strip_disj / strip_conj (= members of the right-nested connective, "
+            "functional contracts), strip_disj_n, and try_resolve (pivot search of th_resolution)",
+            "A1b made a precondition for the rules that read an equality or a conditional (equiv*, not_equiv*, "
+            "ite*, not_ite*, xor*): the given clause (and premise) are well-typed Boolean terms whose connective "
+            "constants carry their declared types (spec `wfb`); on ill-typed input such as `~(a = b) | a | ~b` with "
+            "naturals a, b the notion of consequence is void. The other rules are proved without precondition",
+            "soundness of `pv` w.r.t. HOL models (every standard model induces a valuation under which pv computes "
+            "the truth value of closed Boolean terms) is the textbook semantics of the connectives, not machine-checked",
+            "every other rule evaluation (~55 rules: resolution's resolvent, equality / congruence, arithmetic, "
+            "simplification, quantifier and let rules), the construction of the resolvent in resolve_order, and the "
+            "hypothesis clause for rules with several premises are covered ONLY by the bounded stand-in "
+            "bounded/c18_verit.py: 'semantic consequence' decided by z3 on an own encoding, 3 s per query, "
+            "'unknown' is never a violation; refl, let, bind, sko_ex, sko_forall, onepoint, forall_inst, subproof "
+            "and the quantifier rules (qnt_*) are NOT exercised",
+            "bounded/c18_contracts.py evaluates the contracts of the proved rules natively (pre-condition true and "
+            "post-condition true under all valuations of the atoms, on every accepted clause of a small enumeration): "
+            "a guard against vacuous pre-conditions and against an unsound encoding, not counted as proof",
         ],
-        trusted_base=['z3 5.1', 'own encoding'],
+        trusted_base=['pyvc (this repository)', 'z3 5.1', '/usr/bin/z3 4.8.12 (second back end, unsat answers only)'],
     ),
     'C06': dict(
         specs=[], contracts=[], targets=[], bounded=['bounded.c06_solvers.run'], level='exploration',
